@@ -530,9 +530,10 @@ def check_toc_selection(fails_out):
                     open(os.path.join(d, nm), "wb").close()
                 got = TOC._latest_generation(st, "MAIN")
                 if got != max(gens):
-                    fails_out.append({"case": "C02-latest-generation", "detail": "TOC files for generations %r (+ a temp TOC of a "
-                                      "crashed commit, another index's TOC): _latest_generation = %r expected %r" % (gens, got, max(gens)),
-                                      "corpus": None})
+                    for pfx in ("C02", "C03"):
+                        fails_out.append({"case": pfx + "-latest-generation", "detail": "TOC files for generations %r (+ a temp TOC of a "
+                                          "crashed commit, another index's TOC): _latest_generation = %r expected %r" % (gens, got, max(gens)),
+                                          "corpus": None})
                     return
 
                 class Seg(object):
